@@ -46,7 +46,8 @@ def load_findings():
 
 
 class Job:
-    def __init__(self, flavour, prop, seed, cases, extra=None, policy=None, timeout=1800, tier="quick", only_case=None):
+    def __init__(self, flavour, prop, seed, cases, extra=None, policy=None, timeout=1800, tier="quick", only_case=None,
+                 trace=False):
         self.flavour = flavour
         self.prop = prop
         self.seed = seed
@@ -56,6 +57,7 @@ class Job:
         self.timeout = timeout
         self.tier = tier
         self.only_case = only_case
+        self.trace = trace  # YOMM2_TRACE=1: the documented trace of the debug policies is on
         self.summary = None
         self.violations = []  # (key, witness)
         self.failure = None   # harness failure text
@@ -78,13 +80,16 @@ def run_job(job, binary, outdir):
     env = dict(os.environ)
     env.update(SAN_ENV)
     env.pop("YOMM2_TRACE", None)
+    if job.trace:
+        env["YOMM2_TRACE"] = "1"
     env["LC_ALL"] = "C"
     if job.flavour == "tsan":
         env["TSAN_OPTIONS"] += ":log_path=%s/tsan-%s-%d" % (outdir, job.prop, job.seed)
     t0 = time.time()
     argv = job.argv(binary, outdir)
     errpath = os.path.join(outdir, "stderr-%s-%s-%d.txt" % (job.prop, job.flavour, job.seed))
-    with open(errpath, "w") as errf:
+    # (the trace goes to stderr and is huge: it is discarded; crashes are still reported on stdout)
+    with open("/dev/null" if job.trace else errpath, "w") as errf:
         try:
             p = subprocess.run(argv, stdout=subprocess.PIPE, stderr=errf, env=env, timeout=job.timeout, text=True,
                                errors="replace")
@@ -286,6 +291,7 @@ class Check:
             "flavours": flavours,
             "seeds": seeds[:64],
             "jobs": len(self.jobs),
+            "jobs_with_trace_enabled": sum(1 for j in self.jobs if j.trace),
             "repo_include_sha": vfbuild.include_key(),
             "known_findings_reported": [k for k, _ in listed],
             "violation_keys": sorted(reported),
